@@ -311,3 +311,382 @@ Proof.
   rewrite !rsum_da_term by assumption.
   generalize (wsum red true tc_neg tds) (wsum red false tc_pos tds); intros A B. sign_cases.
 Qed.
+
+(* ---- three-factor rules, scalar signal: w(t+dt) - w(t) = gamma M zeta, gamma = |scale| *)
+Theorem da_mstdp_scalar_rule red lr_pos lr_neg tc_pos tc_neg signal scale tds :
+  linear_red red -> tc_pos <> 0 -> tc_neg <> 0 ->
+  net RN (da_mstdp_scalar RN red lr_pos lr_neg tc_pos tc_neg signal scale tds) =
+  Rabs scale * signal * red (map (rule_row lr_pos tc_pos lr_neg tc_neg) tds).
+Proof.
+  intros Hl Hp Hn. rewrite <- wsum_rule by exact Hl. destruct Hl as [Hh _]. unfold da_mstdp_scalar.
+  rewrite !rsum_da_term by assumption.
+  generalize (wsum red true tc_pos tds) (wsum red false tc_neg tds); intros A B. rn_simpl.
+  replace (Rabs scale * signal * (lr_pos * A + lr_neg * B))
+    with (Rabs scale * ((lr_pos * signal) * A + (lr_neg * signal) * B)) by ring.
+  replace (Rabs lr_pos * A * Rabs (signal * scale)) with (Rabs (lr_pos * signal) * (Rabs scale * A))
+    by (rewrite !Rabs_mult; ring).
+  replace (Rabs lr_neg * B * Rabs (signal * scale)) with (Rabs (lr_neg * signal) * (Rabs scale * B))
+    by (rewrite !Rabs_mult; ring).
+  generalize (lr_pos * signal) (lr_neg * signal) (Rabs scale); intros p q s. sign_cases.
+Qed.
+
+Theorem da_mstdpd_scalar_rule red lr_neg lr_pos tc_neg tc_pos signal scale tds :
+  linear_red red -> tc_pos <> 0 -> tc_neg <> 0 ->
+  net RN (da_mstdpd_scalar RN red lr_neg lr_pos tc_neg tc_pos signal scale tds) =
+  Rabs scale * signal * red (map (rule_row lr_neg tc_neg lr_pos tc_pos) tds).
+Proof.
+  intros Hl Hp Hn. rewrite <- wsum_rule by exact Hl. destruct Hl as [Hh _]. unfold da_mstdpd_scalar.
+  rewrite !rsum_da_term by assumption.
+  generalize (wsum red true tc_neg tds) (wsum red false tc_pos tds); intros A B. rn_simpl.
+  replace (Rabs scale * signal * (lr_neg * A + lr_pos * B))
+    with (Rabs scale * ((lr_neg * signal) * A + (lr_pos * signal) * B)) by ring.
+  replace (Rabs lr_neg * A * Rabs (signal * scale)) with (Rabs (lr_neg * signal) * (Rabs scale * A))
+    by (rewrite !Rabs_mult; ring).
+  replace (Rabs lr_pos * B * Rabs (signal * scale)) with (Rabs (lr_pos * signal) * (Rabs scale * B))
+    by (rewrite !Rabs_mult; ring).
+  generalize (lr_neg * signal) (lr_pos * signal) (Rabs scale); intros p q s. sign_cases.
+Qed.
+
+(* ---- three-factor rules, per-sample signal, sum over the batch (the trainers' default reduction):
+   w(t+dt) - w(t) = sum_b gamma M_b zeta_b *)
+Definition sgn_of (s : R) : R := if Rle_dec 0 s then 1 else -1.
+
+Lemma select_split (F : list nvR -> R -> R) tds ss :
+  tsum RN (select (map (fun s => geb RN s (zero RN)) ss) (map2 F tds ss)) -
+  tsum RN (select (map (fun s => ltb RN s (zero RN)) ss) (map2 F tds ss)) =
+  tsum RN (map2 (fun row s => sgn_of s * F row s) tds ss).
+Proof.
+  revert ss; induction tds as [|row t IH]; intros ss; [destruct ss; cbn; rn_simpl; lra|].
+  destruct ss as [|s ss]; [cbn; rn_simpl; lra|]. specialize (IH ss).
+  cbn [map map2 select]. unfold sgn_of in *. rn_unfold.
+  destruct (Rleb'_spec 0 s); destruct (Rltb'_spec s 0); destruct (Rle_dec 0 s); try lra;
+    cbn [tsum]; rn_simpl; change (T RN) with R in *; lra.
+Qed.
+
+Lemma tsum_map2_add {A B : Type} (f g : A -> B -> R) la lb :
+  tsum RN (map2 (fun a b => f a b + g a b) la lb) = tsum RN (map2 f la lb) + tsum RN (map2 g la lb).
+Proof.
+  revert lb; induction la as [|a t IH]; intros lb; [cbn; rn_simpl; lra|].
+  destruct lb as [|b lb]; [cbn; rn_simpl; lra|]. cbn [map2 tsum]. rn_simpl. rewrite IH. lra.
+Qed.
+Lemma tsum_map2_scal {A B : Type} c (f : A -> B -> R) la lb :
+  tsum RN (map2 (fun a b => c * f a b) la lb) = c * tsum RN (map2 f la lb).
+Proof.
+  revert lb; induction la as [|a t IH]; intros lb; [cbn; rn_simpl; lra|].
+  destruct lb as [|b lb]; [cbn; rn_simpl; lra|]. cbn [map2 tsum]. rn_simpl. rewrite IH. lra.
+Qed.
+Lemma map2_ext {A B C : Type} (f g : A -> B -> C) la lb : (forall a b, f a b = g a b) -> map2 f la lb = map2 g la lb.
+Proof.
+  intros H. revert lb; induction la as [|a t IH]; intros lb; [reflexivity|]. destruct lb; [reflexivity|].
+  cbn. rewrite H, IH. reflexivity.
+Qed.
+Lemma part_val_red_opt_sum l : part_val RN (red_opt RN (reduce RN RSum) l) = tsum RN l.
+Proof. destruct l; reflexivity. Qed.
+
+Definition wrow (causal : bool) (tc : R) (row : list nvR) : R := nansum RN (map (option_map (win causal tc)) row).
+Lemma rule_row_split lr_c tc_c lr_a tc_a row :
+  rule_row lr_c tc_c lr_a tc_a row = lr_c * wrow true tc_c row + lr_a * wrow false tc_a row.
+Proof.
+  unfold rule_row, wrow. rewrite <- !nansum_scal, <- nansum_add. apply nansum_ext. intros [td|]; [|reflexivity].
+  cbn [option_map]. f_equal. apply rule_win.
+Qed.
+
+(* the signed, scaled per-sample sums of one half of the rule *)
+Lemma signed_scaled_rows tc lr causal ss scale tds : tc <> 0 ->
+  let X := scaled_rows RN (da_term RN tc lr causal) ss scale tds in
+  tsum RN (select (map (fun s => geb RN s (zero RN)) ss) X) - tsum RN (select (map (fun s => ltb RN s (zero RN)) ss) X) =
+  Rabs lr * tsum RN (map2 (fun row s => Rabs scale * s * wrow causal tc row) tds ss).
+Proof.
+  intros Htc X. unfold X, scaled_rows. rewrite select_split, <- tsum_map2_scal. f_equal. apply map2_ext. intros row s.
+  replace (nansum RN (map (da_term RN tc lr causal) row)) with (Rabs lr * wrow causal tc row).
+  2:{ unfold wrow. rewrite <- nansum_scal. apply nansum_ext. intros v. symmetry. apply da_term_closed. exact Htc. }
+  rn_simpl. rewrite Rabs_mult. unfold sgn_of, Rabs at 2. destruct (Rle_dec 0 s); destruct (Rcase_abs s); try lra; ring.
+Qed.
+
+Ltac tensor_cases :=
+  unfold net; cbn [fst snd]; rewrite !part_val_red_opt_sum, !tsum_app; rn_simpl; change (T RN) with R in *;
+  repeat match goal with |- context [tsum RN (select ?m ?x)] => generalize dependent (tsum RN (select m x)); intros end;
+  unfold Rabs in *; repeat match goal with |- context [Rcase_abs ?x] => destruct (Rcase_abs x) end;
+  repeat match goal with H : context [Rcase_abs ?x] |- _ => destruct (Rcase_abs x) end; try lra; try nra.
+
+Theorem da_mstdp_tensor_rule lr_pos lr_neg tc_pos tc_neg ss scale tds :
+  tc_pos <> 0 -> tc_neg <> 0 ->
+  net RN (da_mstdp_tensor RN (reduce RN RSum) lr_pos lr_neg tc_pos tc_neg ss scale tds) =
+  tsum RN (map2 (fun row s => Rabs scale * s * rule_row lr_pos tc_pos lr_neg tc_neg row) tds ss).
+Proof.
+  intros Hp Hn.
+  pose proof (signed_scaled_rows tc_pos lr_pos true ss scale tds Hp) as E1.
+  pose proof (signed_scaled_rows tc_neg lr_neg false ss scale tds Hn) as E2. cbv zeta in E1, E2.
+  rewrite (map2_ext _ (fun row s => lr_pos * (Rabs scale * s * wrow true tc_pos row)
+                                    + lr_neg * (Rabs scale * s * wrow false tc_neg row)))
+    by (intros; rewrite rule_row_split; ring).
+  rewrite tsum_map2_add, !tsum_map2_scal.
+  revert E1 E2.
+  generalize (tsum RN (map2 (fun row s => Rabs scale * s * wrow true tc_pos row) tds ss)).
+  generalize (tsum RN (map2 (fun row s => Rabs scale * s * wrow false tc_neg row) tds ss)).
+  intros B A. unfold da_mstdp_tensor.
+  set (X := scaled_rows RN (da_term RN tc_pos lr_pos true) ss scale tds).
+  set (Y := scaled_rows RN (da_term RN tc_neg lr_neg false) ss scale tds).
+  intros E1 E2. unfold geb in *. rn_simpl.
+  destruct (Rleb'_spec 0 lr_pos); destruct (Rleb'_spec 0 lr_neg); tensor_cases.
+Qed.
+
+Theorem da_mstdpd_tensor_rule lr_neg lr_pos tc_neg tc_pos ss scale tds :
+  tc_pos <> 0 -> tc_neg <> 0 ->
+  net RN (da_mstdpd_tensor RN (reduce RN RSum) lr_neg lr_pos tc_neg tc_pos ss scale tds) =
+  tsum RN (map2 (fun row s => Rabs scale * s * rule_row lr_neg tc_neg lr_pos tc_pos row) tds ss).
+Proof.
+  intros Hp Hn.
+  pose proof (signed_scaled_rows tc_neg lr_neg true ss scale tds Hn) as E1.
+  pose proof (signed_scaled_rows tc_pos lr_pos false ss scale tds Hp) as E2. cbv zeta in E1, E2.
+  rewrite (map2_ext _ (fun row s => lr_neg * (Rabs scale * s * wrow true tc_neg row)
+                                    + lr_pos * (Rabs scale * s * wrow false tc_pos row)))
+    by (intros; rewrite rule_row_split; ring).
+  rewrite tsum_map2_add, !tsum_map2_scal.
+  revert E1 E2.
+  generalize (tsum RN (map2 (fun row s => Rabs scale * s * wrow true tc_neg row) tds ss)).
+  generalize (tsum RN (map2 (fun row s => Rabs scale * s * wrow false tc_pos row) tds ss)).
+  intros B A. unfold da_mstdpd_tensor.
+  set (X := scaled_rows RN (da_term RN tc_neg lr_neg true) ss scale tds).
+  set (Y := scaled_rows RN (da_term RN tc_pos lr_pos false) ss scale tds).
+  intros E1 E2. unfold geb in *. rn_simpl.
+  destruct (Rltb'_spec lr_neg 0); destruct (Rltb'_spec lr_pos 0); tensor_cases.
+Qed.
+
+(* ================================================================== D. kernel STDP == dedicated delay-adjusted rules *)
+Definition pospart (x : R) : R := if Rle_dec 0 x then x else 0.
+Definition negpart (x : R) : R := if Rle_dec 0 x then 0 else x.
+
+Lemma clamp_min_kernel (k : R -> R) lr causal tc v :
+  (forall td, k td = lr * win causal tc td) ->
+  clamp_min0 RN (option_map k v) = option_map (fun td => pospart lr * win causal tc td) v.
+Proof.
+  intros Hk. destruct v as [td|]; [|reflexivity]. cbn [option_map clamp_min0]. f_equal. rewrite Hk.
+  pose proof (win_nonneg causal tc td) as Hw. unfold tmax, pospart. rn_simpl.
+  destruct (Rltb'_spec (lr * win causal tc td) 0); destruct (Rle_dec 0 lr); nra.
+Qed.
+Lemma clamp_max_kernel (k : R -> R) lr causal tc v :
+  (forall td, k td = lr * win causal tc td) ->
+  clamp_max0 RN (option_map k v) = option_map (fun td => negpart lr * win causal tc td) v.
+Proof.
+  intros Hk. destruct v as [td|]; [|reflexivity]. cbn [option_map clamp_max0]. f_equal. rewrite Hk.
+  pose proof (win_nonneg causal tc td) as Hw. unfold tmin, negpart. rn_simpl.
+  destruct (Rltb'_spec 0 (lr * win causal tc td)); destruct (Rle_dec 0 lr); nra.
+Qed.
+
+Lemma rsum_scaled_win red (f : nvR -> nvR) c causal tc tds : homog red ->
+  (forall v, f v = option_map (fun td => c * win causal tc td) v) ->
+  rsum RN red f tds = c * wsum red causal tc tds.
+Proof.
+  intros Hh Hf. unfold rsum, wsum. rewrite <- Hh, map_map. f_equal. apply map_ext. intros row.
+  rewrite <- nansum_scal. apply nansum_ext. exact Hf.
+Qed.
+
+(* the parts of the kernel trainers run with the shipped exponential half kernels *)
+Lemma kernel_fwd_exp_parts red lr_c tc_c lr_a tc_a tds : homog red -> tc_c <> 0 -> tc_a <> 0 ->
+  let k := kernel_fwd RN red (fun x => exp_stdp_post_kernel RN x lr_c tc_c)
+                             (fun x => exp_stdp_pre_kernel RN x lr_a tc_a) tds in
+  part_val RN (fst k) = pospart lr_c * wsum red true tc_c tds + pospart lr_a * wsum red false tc_a tds /\
+  part_val RN (snd k) = - (negpart lr_c * wsum red true tc_c tds + negpart lr_a * wsum red false tc_a tds).
+Proof.
+  intros Hh Hc Ha. cbv zeta. unfold kernel_fwd. cbn [fst snd part_val]. rn_simpl.
+  rewrite (rsum_scaled_win red _ (pospart lr_c) true tc_c), (rsum_scaled_win red _ (pospart lr_a) false tc_a),
+          (rsum_scaled_win red _ (negpart lr_c) true tc_c), (rsum_scaled_win red _ (negpart lr_a) false tc_a);
+    try exact Hh; try (split; reflexivity);
+    intros v; (apply clamp_min_kernel || apply clamp_max_kernel); intros td;
+    (apply exp_post_kernel_closed || apply exp_pre_kernel_closed); assumption.
+Qed.
+
+Ltac parts_cases :=
+  unfold part_val, pospart, negpart; cbn [fst snd]; rn_unfold; rcases; cbn [fst snd]; rn_simpl;
+  unfold Rabs; repeat match goal with |- context [Rcase_abs ?x] => destruct (Rcase_abs x) end;
+  repeat match goal with |- context [Rle_dec ?a ?b] => destruct (Rle_dec a b) end;
+  try (split; lra); try (split; ring).
+
+(* DelayAdjustedKernelSTDP(exp_stdp_post_kernel(lr_pos, tc_pos), exp_stdp_pre_kernel(lr_neg, tc_neg)) accumulates the
+   same potentiating and the same depressing part as DelayAdjustedSTDP(lr_pos, lr_neg, tc_pos, tc_neg) - a part that
+   the dedicated rule omits (None) is zero in the kernel rule - for every batch reduction that commutes with scaling
+   (sum, mean) *)
+Theorem kernel_eq_delayadjusted red lr_pos lr_neg tc_pos tc_neg tds :
+  homog red -> tc_pos <> 0 -> tc_neg <> 0 ->
+  let k := kernel_fwd RN red (fun x => exp_stdp_post_kernel RN x lr_pos tc_pos)
+                             (fun x => exp_stdp_pre_kernel RN x lr_neg tc_neg) tds in
+  let d := da_stdp RN red lr_pos lr_neg tc_pos tc_neg tds in
+  part_val RN (fst k) = part_val RN (fst d) /\ part_val RN (snd k) = part_val RN (snd d).
+Proof.
+  intros Hh Hp Hn. cbv zeta.
+  destruct (kernel_fwd_exp_parts red lr_pos tc_pos lr_neg tc_neg tds Hh Hp Hn) as [E1 E2]. cbv zeta in E1, E2.
+  rewrite E1, E2. unfold da_stdp. rewrite !rsum_da_term by assumption.
+  generalize (wsum red true tc_pos tds) (wsum red false tc_neg tds); intros A B. parts_cases.
+Qed.
+
+(* the delay-learning pair: DelayAdjustedKernelSTDPD(post = (lr_neg, tc_neg), pre = (lr_pos, tc_pos)) == DelayAdjustedSTDPD *)
+Theorem kernel_eq_delayadjusted_delays red lr_neg lr_pos tc_neg tc_pos tds :
+  homog red -> tc_pos <> 0 -> tc_neg <> 0 ->
+  let k := kernel_fwd RN red (fun x => exp_stdp_post_kernel RN x lr_neg tc_neg)
+                             (fun x => exp_stdp_pre_kernel RN x lr_pos tc_pos) tds in
+  let d := da_stdpd RN red lr_neg lr_pos tc_neg tc_pos tds in
+  part_val RN (fst k) = part_val RN (fst d) /\ part_val RN (snd k) = part_val RN (snd d).
+Proof.
+  intros Hh Hp Hn. cbv zeta.
+  destruct (kernel_fwd_exp_parts red lr_neg tc_neg lr_pos tc_pos tds Hh Hn Hp) as [E1 E2]. cbv zeta in E1, E2.
+  rewrite E1, E2. unfold da_stdpd. rewrite !rsum_da_term by assumption.
+  generalize (wsum red true tc_neg tds) (wsum red false tc_pos tds); intros A B. parts_cases.
+Qed.
+
+(* consequently kernel STDP with the shipped kernels nets to the documented rule as well *)
+Corollary kernel_exp_rule red lr_c tc_c lr_a tc_a tds : linear_red red -> tc_c <> 0 -> tc_a <> 0 ->
+  net RN (kernel_fwd RN red (fun x => exp_stdp_post_kernel RN x lr_c tc_c)
+                            (fun x => exp_stdp_pre_kernel RN x lr_a tc_a) tds) =
+  red (map (rule_row lr_c tc_c lr_a tc_a) tds).
+Proof.
+  intros Hl Hc Ha. rewrite <- wsum_rule by exact Hl. destruct Hl as [Hh _].
+  destruct (kernel_fwd_exp_parts red lr_c tc_c lr_a tc_a tds Hh Hc Ha) as [E1 E2]. cbv zeta in E1, E2.
+  unfold net. rewrite E1, E2. rn_simpl. unfold pospart, negpart.
+  destruct (Rle_dec 0 lr_c); destruct (Rle_dec 0 lr_a); ring.
+Qed.
+
+(* The agreement does NOT extend to batch_reduction = torch.amax: the kernel trainers negate AFTER reducing
+   (-(amax(clamp_max(.)))), so their depressing part is the batch MINIMUM of the per-sample magnitudes where the
+   dedicated rule takes the maximum.  Witness: batch of two, sample 0 has t_delta = -1, sample 1 has not spiked.
+   (replayed on the implementation: DelayAdjustedSTDP neg = e^-1, DelayAdjustedKernelSTDP neg = 0) *)
+Theorem kernel_eq_amax_refuted :
+  exists lr_pos lr_neg tc_pos tc_neg tds,
+    part_val RN (snd (kernel_fwd RN (reduce RN RAmax) (fun x => exp_stdp_post_kernel RN x lr_pos tc_pos)
+                                 (fun x => exp_stdp_pre_kernel RN x lr_neg tc_neg) tds)) <>
+    part_val RN (snd (da_stdp RN (reduce RN RAmax) lr_pos lr_neg tc_pos tc_neg tds)).
+Proof.
+  exists 1, (-1), 1, 1, [[Some (-1)]; [None]].
+  unfold kernel_fwd, da_stdp, rsum, da_term, clamp_max0, exp_stdp_post_kernel, exp_stdp_pre_kernel.
+  cbn [map option_map nansum nan0 tsum reduce fold_left fst snd part_val]. rn_unfold.
+  assert (A1 : Rabs (-1) = 1) by (rewrite Rabs_left by lra; lra).
+  assert (A2 : Rabs 1 = 1) by (apply Rabs_right; lra).
+  rewrite ?A1, ?A2. replace (1 / - (1)) with (-1) by field.
+  pose proof (exp_pos (-1)) as He. generalize dependent (rexp (-1)). intros e He.
+  rcases; cbn [fst snd part_val]; rn_simpl; rcases; lra.
+Qed.
+
+(* ================================================================== E/F. whole cells, whole histories *)
+
+Lemma tdelta_adj_zero tpre tpost : tdelta_adj RN tpre tpost 0 = tdelta_raw RN tpre tpost.
+Proof. destruct tpre, tpost; cbn; try reflexivity. f_equal. rn_simpl. lra. Qed.
+
+(* ---- tensors of event times *)
+Definition evt_from (dt : R) (st : option (list nvR)) (obs : list (list bool)) : option (list nvR) :=
+  fold_left (fun s o => Some (ev_fold_t RN dt o s)) obs st.
+Definition unit_hist (u : nat) (obs : list (list bool)) : list bool := map (fun o => nth u o false) obs.
+
+Lemma nth_map2 {A B C : Type} (f : A -> B -> C) la lb da db dc u :
+  length la = length lb -> f da db = dc -> nth u (map2 f la lb) dc = f (nth u la da) (nth u lb db).
+Proof.
+  revert lb u; induction la as [|a t IH]; intros lb u HL Hd; destruct lb as [|b lb]; try discriminate.
+  - destruct u; cbn; congruence.
+  - destruct u; cbn; [reflexivity|]. apply IH; [cbn in HL; lia | exact Hd].
+Qed.
+Lemma map2_length {A B C : Type} (f : A -> B -> C) la lb : length la = length lb -> length (map2 f la lb) = length la.
+Proof.
+  revert lb; induction la as [|a t IH]; intros lb HL; destruct lb; try discriminate; cbn; [reflexivity|].
+  f_equal. apply IH. cbn in HL. lia.
+Qed.
+
+Lemma ev_peek_snoc dt h b : h <> [] -> ev_peek dt (h ++ [b]) = ev_fold RN dt b (Some (ev_peek dt h)).
+Proof.
+  intros Hh. unfold ev_peek at 1. rewrite ev_run_snoc. unfold ev_peek.
+  rewrite (event_time_since_last dt h Hh). reflexivity.
+Qed.
+
+(* every entry of the monitor's tensor is the unit's own event time *)
+Lemma evt_from_units dt n obs :
+  obs <> [] -> Forall (fun o => length o = n) obs ->
+  exists l, evt_from dt None obs = Some l /\ length l = n /\
+            forall u, nth u l None = ev_peek dt (unit_hist u obs).
+Proof.
+  induction obs as [|o obs IH] using rev_ind; [congruence|]. intros _ Hf.
+  apply Forall_app in Hf. destruct Hf as [Hf Ho]. inversion Ho as [|? ? Hlo _]; subst.
+  unfold evt_from. rewrite fold_left_app. cbn [fold_left]. fold (evt_from dt None obs).
+  destruct obs as [|o' obs'].
+  - cbn [evt_from fold_left ev_fold_t]. eexists; split; [reflexivity|]. split; [apply map_length|].
+    intros u. change (@None (T RN)) with (ev_fold RN dt false None) at 1. rewrite map_nth. reflexivity.
+  - destruct (IH ltac:(discriminate) Hf) as [l [El [Ll Hl]]]. rewrite El. cbn [ev_fold_t].
+    eexists; split; [reflexivity|]. split; [rewrite map2_length; lia|].
+    intros u. unfold unit_hist. rewrite map_app. cbn [map]. rewrite ev_peek_snoc by discriminate.
+    fold (unit_hist u (o' :: obs')). rewrite <- Hl.
+    apply (nth_map2 (fun o0 s => ev_fold RN dt o0 (Some s)) o l false None None u); [lia | reflexivity].
+Qed.
+
+(* ---- the cell *)
+Section Cell.
+Variable red : list R -> R.
+Variable c : cellcfg RN.
+
+Definition state_after (st : cellstate RN) (is : list (stepin RN)) : cellstate RN :=
+  fold_left (fun s i => fst (cell_step RN red c s i)) is st.
+
+Lemma cell_run_app st is1 is2 :
+  cell_run RN red c st (is1 ++ is2) = cell_run RN red c st is1 ++ cell_run RN red c (state_after st is1) is2.
+Proof.
+  revert st; induction is1 as [|i t IH]; intros st; [reflexivity|]. cbn [app cell_run]. rewrite IH. reflexivity.
+Qed.
+(* so the record of step k of any run is one cell_step from the state reached by the first k inputs *)
+Corollary cell_run_step prefix i :
+  cell_run RN red c (mkCS RN None None) (prefix ++ [i]) =
+  cell_run RN red c (mkCS RN None None) prefix ++ [cell_step RN red c (state_after (mkCS RN None None) prefix) i].
+Proof. rewrite cell_run_app. reflexivity. Qed.
+
+Lemma state_after_evt st is :
+  state_after st is = mkCS RN (evt_from (c_dt RN c) (cs_pre RN st) (map (si_pre RN) is))
+                          (evt_from (c_dt RN c) (cs_post RN st) (map (si_post RN) is)).
+Proof.
+  revert st; induction is as [|i t IH]; intros st; [destruct st; reflexivity|].
+  cbn [state_after fold_left map evt_from]. fold (state_after (fst (cell_step RN red c st i)) t).
+  rewrite IH. reflexivity.
+Qed.
+
+(* t_delta of a receptive pair as the statement of the property has it: from the TRUE spike times of the two units *)
+Definition spec_tdelta (hpre hpost : list bool) (d : R) : nvR :=
+  match c_tr RN c with
+  | TKernel _ _ => true_tdelta (c_dt RN c) hpre hpost 0
+  | _ => true_tdelta (c_dt RN c) hpre hpost d
+  end.
+Definition spec_tds (is : list (stepin RN)) (s : synapse) (d : R) : list (list nvR) :=
+  map (fun b => map (fun io => spec_tdelta (unit_hist (b * c_npre RN c + fst io) (map (si_pre RN) is))
+                                           (unit_hist (b * c_npost RN c + snd io) (map (si_post RN) is)) d) s)
+      (seq 0 (c_B RN c)).
+
+Definition shaped (n m : nat) (is : list (stepin RN)) : Prop :=
+  Forall (fun i => length (si_pre RN i) = n /\ length (si_post RN i) = m) is.
+
+Lemma map2_ext_l {A B C : Type} (f g : A -> B -> C) la lb :
+  (forall a b, In a la -> f a b = g a b) -> map2 f la lb = map2 g la lb.
+Proof.
+  revert lb; induction la as [|a t IH]; intros lb H; [reflexivity|]. destruct lb; [reflexivity|].
+  cbn. rewrite H by (left; reflexivity). rewrite IH; [reflexivity|]. intros; apply H; right; assumption.
+Qed.
+
+(* FLAGSHIP: at every step of every run, for every parameter element, the trainer's forward is applied to the
+   t_delta values t_post_last - t_pre_last - d(t) of the true most recent spike times (NaN while a side is silent) *)
+Theorem cell_step_true_times n m prefix i :
+  shaped n m (prefix ++ [i]) ->
+  snd (cell_step RN red c (state_after (mkCS RN None None) prefix) i) =
+  map2 (fun s d => fwd RN red (c_tr RN c) (si_sig RN i) (spec_tds (prefix ++ [i]) s d)) (c_syn RN c) (si_delay RN i).
+Proof.
+  intros Hs. unfold cell_step. cbn [snd]. rewrite state_after_evt. cbn [cs_pre cs_post].
+  assert (Hpre : Forall (fun o => length o = n) (map (si_pre RN) (prefix ++ [i]))).
+  { apply Forall_map. eapply Forall_impl; [|exact Hs]. intros a [H _]; exact H. }
+  assert (Hpost : Forall (fun o => length o = m) (map (si_post RN) (prefix ++ [i]))).
+  { apply Forall_map. eapply Forall_impl; [|exact Hs]. intros a [_ H]; exact H. }
+  destruct (evt_from_units (c_dt RN c) n _ ltac:(rewrite map_app; intros E; apply app_eq_nil in E; destruct E; discriminate) Hpre)
+    as [lp [Ep [_ Hp]]].
+  destruct (evt_from_units (c_dt RN c) m _ ltac:(rewrite map_app; intros E; apply app_eq_nil in E; destruct E; discriminate) Hpost)
+    as [lq [Eq [_ Hq]]].
+  unfold evt_from in Ep, Eq. rewrite map_app, fold_left_app in Ep, Eq. cbn [map fold_left] in Ep, Eq.
+  unfold evt_from. inversion Ep as [Ep']. inversion Eq as [Eq']. clear Ep Eq.
+  apply map2_ext. intros s d. f_equal. unfold tds_of, spec_tds. apply map_ext. intros b. apply map_ext. intros io.
+  rewrite Ep', Eq', Hp, Hq. unfold tdelta_of, spec_tdelta.
+  assert (HL : forall u v, length (unit_hist u (map (si_pre RN) (prefix ++ [i]))) =
+                           length (unit_hist v (map (si_post RN) (prefix ++ [i])))).
+  { intros. unfold unit_hist. rewrite !map_length. reflexivity. }
+  destruct (c_tr RN c); try (apply tdelta_model_true; apply HL).
+  rewrite <- tdelta_adj_zero. apply tdelta_model_true. apply HL.
+Qed.
+End Cell.
